@@ -44,3 +44,31 @@ def parse_stats(out):
     if m:
         st["depth"] = int(m.group(1))
     return st
+
+
+def printed(out, tag):
+    """values printed by PrintT(<<tag, ...>>): TLC wraps long tuples over several lines; returns list of lists of the
+    remaining elements as raw strings (JSON strings unescaped)"""
+    items, cur, depth = [], "", 0
+    for line in out.splitlines():
+        if not cur and not line.startswith("<<"):
+            continue
+        cur += line.strip() + " "
+        depth += line.count("<<") - line.count(">>")
+        if depth <= 0:
+            items.append(cur.strip())
+            cur, depth = "", 0
+    res = []
+    for it in items:
+        m = re.match(r'<<\s*"%s"\s*,(.*)>>\s*$' % re.escape(tag), it, re.S)
+        if m:
+            res.append(m.group(1).strip())
+    return res
+
+
+def unjson(s):
+    """a TLA+ string literal holding JSON -> python object"""
+    s = s.strip()
+    assert s.startswith('"') and s.endswith('"'), s[:80]
+    import json
+    return json.loads(s[1:-1].encode().decode("unicode_escape"))
